@@ -38,6 +38,20 @@ type RevalidationContext struct {
 	RefIndex   int
 }
 
+// canStaleOnError reports whether the stored response may be served stale after
+// a failed validation: must-revalidate and no-cache forbid it (RFC 9111 §4.2.4),
+// otherwise the stale-if-error window of the stored response or of the request
+// decides (RFC 5861 §4).
+func (r *validationResponseHandler) canStaleOnError(
+	ctx RevalidationContext,
+	storedCC CCResponseDirectives,
+) bool {
+	if _, noCache := storedCC.NoCache(); noCache || storedCC.MustRevalidate() || ctx.CCReq.NoCache() {
+		return false
+	}
+	return r.siep.CanStaleOnError(ctx.Freshness, storedCC, ctx.CCReq)
+}
+
 func (r RevalidationContext) ToMisc(ccResp CCResponseDirectives) MiscFunc {
 	return MiscFunc(func() Misc {
 		return Misc{
@@ -86,19 +100,16 @@ func (r *validationResponseHandler) HandleValidationResponse(
 		return ctx.Stored.Data, nil
 	}
 
-	var (
-		ccResp     CCResponseDirectives
-		ccRespOnce bool
-	)
 	if (err != nil || isStaleErrorAllowed(resp.StatusCode)) && req.Method == http.MethodGet {
-		ccResp = ParseCCResponseDirectives(resp.Header)
-		ccRespOnce = true
-		if r.siep.CanStaleOnError(ctx.Freshness, ccResp) {
+		// RFC 5861 §4: stale-if-error is taken from the stored response or from the
+		// request, not from the error response.
+		storedCC := ParseCCResponseDirectives(ctx.Stored.Data.Header)
+		if r.canStaleOnError(ctx, storedCC) {
 			// RFC 9111 §4.2.4 Serving Stale Responses
 			// RFC 9111 §4.3.3 Handling Validation Responses (5xx errors)
 			SetAgeHeader(ctx.Stored.Data, r.clock, ctx.Freshness.Age)
 			CacheStatusStale.ApplyTo(ctx.Stored.Data.Header)
-			r.l.LogCacheStaleIfError(req, ctx.URLKey, ctx.ToMisc(ccResp))
+			r.l.LogCacheStaleIfError(req, ctx.URLKey, ctx.ToMisc(storedCC))
 			return ctx.Stored.Data, nil
 		}
 	}
@@ -107,9 +118,7 @@ func (r *validationResponseHandler) HandleValidationResponse(
 		return nil, err
 	}
 
-	if !ccRespOnce {
-		ccResp = ParseCCResponseDirectives(resp.Header)
-	}
+	ccResp := ParseCCResponseDirectives(resp.Header)
 	switch {
 	case r.ce.CanStoreResponse(resp, ctx.CCReq, ccResp):
 		// RFC 9111 §4.3.3 Handling Validation Responses (full response)
